@@ -393,6 +393,55 @@ func DrawDataset(t *rapid.T, w Window, o DataOpts) Dataset {
 			}
 		}
 	}
+	// A pause common to all series of one metric (or to all series): whole batches of
+	// steps at which an operand is empty while its siblings keep producing.
+	if w.Step > 0 && w.Steps() >= 12 && chance(t, 1, 6, "commonpause") {
+		k := ir(t, 10, 25, "pausesteps")
+		s0 := 0
+		if w.Steps() > k && chance(t, 1, 2, "pauselater") {
+			s0 = ir(t, 0, w.Steps()-k, "pausefrom")
+		}
+		metric := ""
+		if chance(t, 1, 2, "pausemetric") {
+			mn := metricNames
+			if len(o.Metrics) > 0 {
+				mn = o.Metrics
+			}
+			metric = pick(t, mn, "pausewhich")
+		}
+		lo := w.Start + int64(s0)*w.Step - lookback - 1
+		hi := w.Start + int64(s0+k)*w.Step
+		for _, off := range o.Offsets {
+			if off > 0 {
+				lo -= off
+			}
+		}
+		for _, r := range o.Ranges {
+			if r > lookback && lo > w.Start+int64(s0)*w.Step-r-1 {
+				lo = w.Start + int64(s0)*w.Step - r - 1
+			}
+		}
+		for i := range ds.Series {
+			if metric != "" {
+				isM := false
+				for _, l := range ds.Series[i].Labels {
+					if l.N == "__name__" && l.V == metric {
+						isM = true
+					}
+				}
+				if !isM {
+					continue
+				}
+			}
+			var keep []core.Sample
+			for _, p := range ds.Series[i].Samples {
+				if p.T <= lo || p.T > hi {
+					keep = append(keep, p)
+				}
+			}
+			ds.Series[i].Samples = keep
+		}
+	}
 	return ds
 }
 
